@@ -443,7 +443,21 @@ class Gen:
                 esc += f"(if (bin eq (bin mod (var {i}) (int 2)) (int 0)) (({self.pick(['cont', 'cont', 'brk'])} _)) ()) "
             if r.random() < 0.5:
                 esc += f"(expr (assign {x} (bin add (var {x}) (int 1)))) "
-            post = " " + " ".join(f"(print (callc (var {g})))" for g in gs)
+            if self.k.labels and r.random() < 0.35:
+                # leave THIS loop from inside a nested labelled loop (labelled break/continue across two
+                # loop scopes while this body's locals are captured)
+                self.features.add("escape-labelled-exit-from-inner-loop")
+                if lbl == "_":
+                    lbl = self.fresh("l")
+                    c2["loops"] = ctx["loops"] + [lbl]
+                j = self.fresh("j")
+                inner_lbl = self.fresh("l") if r.random() < 0.7 else "_"
+                kind = self.pick(["brk", "brk", "cont"])
+                esc += (f"(decl {j} _ (int 0)) (while {inner_lbl} (bin lt (var {j}) (int 2)) "
+                        f"(expr (assign {j} (bin add (var {j}) (int 1)))) "
+                        f"(if (bin eq (var {j}) (int {r.randint(1, 2)})) (({kind} {lbl})) ())) ")
+            # locals of other types declared after the loop reuse the slots of the loop body's locals
+            post = f" (decl {self.fresh('s')} _ (str \"zz\")) (decl {self.fresh('t')} _ (bool true)) " + " ".join(f"(print (callc (var {g})))" for g in gs)
         if r.random() < 0.7:
             if esc and r.random() < 0.5:
                 return f"{pre}(decl {i} _ (int 0)) (while {lbl} (bin lt (var {i}) (int {bound})) {inc} {esc} {body}){post}"
